@@ -17,7 +17,7 @@ pub struct C02 {
 fn is_pricing(op: &Op) -> bool {
     matches!(
         op,
-        Op::Bond { .. } | Op::BondStSei { .. } | Op::Unbond { .. } | Op::Convert { .. } | Op::CheckSlashing { .. } | Op::UpdateGlobalIndex { .. } | Op::BurnFrom { .. }
+        Op::Bond { .. } | Op::BondStSei { .. } | Op::Unbond { .. } | Op::Convert { .. } | Op::CheckSlashing { .. }
     )
 }
 
